@@ -43,6 +43,32 @@ theorem dependency_marker_faithful (S : LeafSpec ev G) (hC : CompactAgree E ev G
     rw [wireExtras_marker, hd]
     exact declMarker_sem S hC D X Y Z hE bM bPy bPl m hM hPy hPl hm
 
+/-- **the same against poetry's own `validate`, with fewer hypotheses**: C11 now proves the compaction agreement for
+the python clause and C06 provides it per text, so the universal `CompactAgree` is replaced by two domain
+conditions on the declared texts (`MarkersAgree`, `PlatformAgree`: the `markers` text and the printed `sys_platform`
+clause parse to trees of C06's proved domain on `E`); what remains besides them is the leaf specification for the
+invariant `CompLeaf E`.  The dependency's marker then validates on the environment of `X.Y.Z` to exactly the
+conjunction of the declared conditions. -/
+theorem dependency_marker_faithful_validate (S : LeafSpec (leafEval E) (CompLeaf E)) (D : Decl) (X Y Z : Nat)
+    (hE : EnvPy E X Y Z) (bM bPy bPl : Bool) (d : Dep) (hM : declRef E D.markers = some bM)
+    (hMa : MarkersAgree E D.markers) (hPy : PyDecl D.python X Y Z bPy)
+    (hPl : PlatformDecl E D.platform bPl) (hPa : PlatformAgree E D.platform) (h : packageDependency D = .ok d) :
+    M.validate E d.marker = .ok (bM && bPy && bPl) := by
+  unfold packageDependency at h
+  cases hc : createDependency D with
+  | error e => simp [hc, bind, Except.bind] at h
+  | ok d0 =>
+    simp only [hc, bind, Except.bind, pure, Except.pure] at h
+    cases h
+    obtain ⟨m, hm, hd⟩ := createDependency_marker D d0 hc
+    rw [wireExtras_marker, hd]
+    have := declMarker_sem_validate S D X Y Z hE bM bPy bPl m hM hMa hPy hPl hPa hm
+    rw [M.validate_eq_sem E m (M.good_mono (fun l hl => by obtain ⟨s, _, _, hb, _⟩ := hl; exact hb) m this.1),
+      this.2]
+
+example (E : Env) : MarkersAgree E none ∧ PlatformAgree E none :=
+  ⟨fun h => absurd h (by decide), fun h => absurd h (by decide)⟩
+
 /-- declarations inside the hypotheses' domain: a python range of C11's domain on interpreter 3.9.1; absent conditions -/
 example : PyDecl (some ">=3.8,<3.11") 3 9 1 true := ⟨_, rfl, by decide +kernel, by decide +kernel⟩
 example (E : Env) : declRef E none = some true ∧ PlatformDecl E none true ∧ PyDecl none 3 9 1 true := ⟨rfl, rfl, rfl⟩
